@@ -100,7 +100,7 @@ def kind_args(kind, rng, strings):
     if kind == "introspect":
         return C.tb(s()), C.topt(rng.choice([None, "access_token", "refresh_token", s()])), "-"
     if kind == "revoke":
-        tk = rng.choice(["A", "R", "C"])
+        tk = rng.choice(["A", "R", "C", "AF", "AFR", "RF", "RFR"])
         hint = rng.choice([None, "access_token", "custom hint", s()]) if tk == "C" else None
         return C.tb(s()), tk, C.topt(hint)
     raise ValueError(kind)
